@@ -328,6 +328,12 @@ func tryBuildLimit(c LimitCfg, reg core.MetricRegistry) (built, error) {
 			noLoad = measurements.NewExponentialAverageMeasurement(20, 3)
 		case "minimum":
 			noLoad = &measurements.MinimumMeasurement{} // the caller's own instance of what the library would have built itself
+		case "percentile":
+			m, err := measurements.NewWindowlessMovingPercentile(0.5, 1.0, 0.5, 0.5) // a caller's choice of baseline: a running median with large steps
+			if err != nil {
+				panic(err)
+			}
+			noLoad = m
 		case "minimum-wrapped":
 			noLoad = &wrappedMinimum{} // the same measurement behind a type of the caller's own (instrumentation, say)
 		}
